@@ -26,6 +26,12 @@ pub fn vx_u32_from_ne_slice(s: &[u8]) -> (r: u32)
     requires s@.len() == 4,
     ensures r == spec_u32_from_ne(s@)
 { u32::from_ne_bytes(s.try_into().unwrap()) }
+#[verifier::external_body]
+pub fn vx_u16_from_be_bytes(a: [u8; 2]) -> (r: u16) ensures r == spec_u16_from_be(a@) { u16::from_be_bytes(a) }
+#[verifier::external_body]
+pub fn vx_u32_from_be_bytes(a: [u8; 4]) -> (r: u32) ensures r == spec_u32_from_be(a@) { u32::from_be_bytes(a) }
+#[verifier::external_body]
+pub fn vx_u32_from_ne_bytes(a: [u8; 4]) -> (r: u32) ensures r == spec_u32_from_ne(a@) { u32::from_ne_bytes(a) }
 pub trait VxIntBytes<const N: usize>: Sized {
     spec fn vx_be(self) -> Seq<u8>;
     spec fn vx_ne(self) -> Seq<u8>;
